@@ -89,6 +89,23 @@ def run_mode(repo, mode, samples, prices=("p",), market_reaction=False, stale_fi
     return explore(mk, 64)
 
 
+def _first_minute_stored(o, s):
+    """what a fill hook in the SECOND minute of the span finds in the 1m store: has the whole first minute been stored by then?
+    None: no fill in the second minute"""
+    stored = False
+    seen = None
+    for e in o.events:
+        if e[0] == "add_candle" and e[2] == "1m" and isinstance(e[1], tuple) and len(e[1]) > 2:
+            ts, close = e[1][0], e[1][2]
+            if isinstance(ts, R) and ts.is_const() and ts.const_value() == T1 and isinstance(close, R) and close.same(R.atom("c1")):
+                stored = True
+        elif e[0] == "add_multiple_1m":
+            stored = True
+        elif e[0] == "fill_at" and isinstance(e[2], R) and e[2].is_const() and e[2].const_value() == T1 + 2 * MIN:
+            seen = stored if seen is None else (seen and stored)
+    return seen
+
+
 def _work(args):
     root, ranks = args
     repo = Repo(root)
@@ -111,7 +128,7 @@ def _work(args):
                 f = [(o.interp.numeric(e[1], s), o.interp.numeric(e[2], s) if isinstance(e[2], R) else None) for e in o.events if e[0] == "fill_at"]
                 active = tuple(x.name for x in o.interp.world["orders_state"].attrs["active_storage"][S.KEY])
                 fills.append((o.kind, tuple(f), o.interp.numeric(o.interp.world["position"].attrs["current_price"], s)
-                              if isinstance(o.interp.world["position"].attrs.get("current_price"), R) else None, active))
+                              if isinstance(o.interp.world["position"].attrs.get("current_price"), R) else None, active, _first_minute_stored(o, s)))
             res[mode] = sorted(set(fills), key=repr)
         out.append((rank, res, err))
     return out
@@ -141,8 +158,10 @@ def check_equivalence(repo, rep, tier):
                     na = [x[1] for x in a]
                     nb = [x[1] for x in b]
                     what = "fills (price, time)" if na != nb else ("final current price" if [x[2] for x in a] != [x[2] for x in b] else
-                                                                    "orders still listed as active when the strategy runs (an order filled in an earlier minute of the span must have been pruned)")
-                    rep.violation(rid, "span|" + ("fills" if na != nb else ("current-price" if [x[2] for x in a] != [x[2] for x in b] else "active-list")),
+                                                                    "orders still listed as active when the strategy runs (an order filled in an earlier minute of the span must have been pruned)"
+                                                                    if [x[3] for x in a] != [x[3] for x in b] else
+                                                                    "1m candles a fill hook in the second minute finds in the store (last element: has the whole first minute been stored by then?)")
+                    rep.violation(rid, "span|" + ("fills" if na != nb else ("current-price" if [x[2] for x in a] != [x[2] for x in b] else "active-list" if [x[3] for x in a] != [x[3] for x in b] else "stored-minutes")),
                                   f"normal and fast matching disagree on the {what} for {desc}: normal {a} vs fast {b}", {"ordering": desc})
                 rep.instance(rid, desc, {"ordering": desc, "normal": repr(a), "fast": repr(b)} if n % 400 == 1 else None)
     rep.extra["orderings"] = n
